@@ -19,6 +19,9 @@ import math
 import bisect
 import contextlib
 import re
+import signal
+import threading
+import traceback
 
 import common
 common.ensure_repo_on_path()
@@ -34,6 +37,39 @@ MAX_VIOLATIONS = 25          # recorded per run (the total count is kept in stat
 class Runaway(BaseException):
     """raised by the guarded objective when the solver evaluates far more often than any budget allows
     (turns a non-terminating search into a reportable failure instead of a hang)"""
+
+
+class Hang(BaseException):
+    """raised by the watchdog when one call into the solver does not return (e.g. a loop that never evaluates the objective)"""
+
+
+WATCHDOG_S = 60.0            # one Solve()/DoGlobalIteration() call normally takes well under a second
+
+
+@contextlib.contextmanager
+def watchdog(run, seconds=None):
+    """SIGALRM based; only active in the main thread (elsewhere it is a no-op)"""
+    seconds = seconds or WATCHDOG_S
+    if threading.current_thread() is not threading.main_thread() or not hasattr(signal, "setitimer"):
+        yield
+        return
+
+    def handler(signum, frame):
+        run.hang = True
+        raise Hang("a solver call did not return within %g s" % seconds)
+    try:
+        old = signal.signal(signal.SIGALRM, handler)
+    except ValueError:
+        yield
+        return
+    old_timer = signal.setitimer(signal.ITIMER_REAL, seconds)
+    try:
+        yield
+    finally:
+        signal.setitimer(signal.ITIMER_REAL, 0)
+        signal.signal(signal.SIGALRM, old)
+        if old_timer[0] > 0:
+            signal.setitimer(signal.ITIMER_REAL, *old_timer)
 
 
 class OracleFailure(BaseException):
@@ -155,6 +191,7 @@ class Run:
         self.out = io.StringIO()
         self.collapsed = None      # info on the float collapse that ended the run
         self.bad_marker = False    # 'Exception was thrown' printed for any other reason
+        self.hang = False          # the watchdog fired during a solver call
 
     # every call into the solver goes through one of these (stdout captured).
     #
@@ -183,7 +220,7 @@ class Run:
         if self.collapsed:
             return self.solver.GetResults()
         c0, m0 = self._scan()
-        with contextlib.redirect_stdout(self.out):
+        with contextlib.redirect_stdout(self.out), watchdog(self):
             sol = self.solver.Solve()
         c1, m1 = self._scan()
         if m1 > m0:
@@ -200,7 +237,7 @@ class Run:
             return False
         c0, _ = self._scan()
         try:
-            with contextlib.redirect_stdout(self.out):
+            with contextlib.redirect_stdout(self.out), watchdog(self):
                 self.solver.DoGlobalIteration(k)
         except Exception as e:
             c1, _ = self._scan()
@@ -213,8 +250,9 @@ class Run:
 
     def trouble(self, err=None):
         """None, or what went wrong inside the solver other than a legitimate float collapse"""
-        if err or self.bad_marker or self.runaway:
+        if err or self.bad_marker or self.runaway or self.hang:
             return {"raised": err, "unexpected_exception_marker": self.bad_marker, "runaway": self.runaway,
+                    "hang": self.hang,
                     "outside_of_interval": self.collapse_info()}
         return None
 
@@ -396,6 +434,16 @@ def violation(prop, case, clause, observed):
 
 def jsonable(x):
     return json.loads(json.dumps(x, default=lambda o: float(o) if isinstance(o, (np.floating,)) else str(o)))
+
+
+def safe(check_case, prop):
+    """wrap a check so that a crash of the checking code on a badly broken solver state is reported, not raised"""
+    def wrapped(case):
+        try:
+            return check_case(case)
+        except Exception as e:                 # noqa
+            return [violation(prop, case, "check-crashed", {"error": repr(e), "traceback": traceback.format_exc()[-1500:]})], {}
+    return wrapped
 
 
 def generic_replay(check_case, v):
